@@ -123,6 +123,12 @@ func profileConfig(p string, seed uint64) RunConfig {
 			c.RetransMs = pick(r, 137, 311)
 			c.MaxRetrans = 1 + r.IntN(3)
 		}
+	case "C10":
+		if r.IntN(3) == 0 {
+			c.Faults = append(c.Faults, "n4") // socket errors on the UPF's own transmissions
+			c.RetransMs = pick(r, 137, 311)
+			c.MaxRetrans = 1 + r.IntN(3)
+		}
 	case "C12":
 		// Session Report Requests left unanswered for a while: the requests that end a URR
 		// then find a report for it still outstanding
@@ -146,6 +152,9 @@ func profileConfig(p string, seed uint64) RunConfig {
 			c.AutoFwd = false // notifications wait in the report queue while requests are served
 		} else if r.IntN(3) == 0 {
 			c.MidFwd = true // ... or arrive while the event loop is inside a turn and pile up
+		}
+		if r.IntN(4) == 0 {
+			c.Faults = append(c.Faults, "dp-far") // a FAR update the data plane refuses
 		}
 	case "C15":
 		c.NSlots = 2 + r.IntN(4)
@@ -208,8 +217,14 @@ func profileConfig(p string, seed uint64) RunConfig {
 			c.RetransMs = 137
 			c.KernLatency = pick(r, 40, 150)
 		}
+		if r.IntN(4) == 0 {
+			// peers known by FQDN and a resolver that fails now and then: the reports of
+			// those moments are lost, nothing else may be
+			c.FQDNMask = 15
+			c.DNSFlaky = pick(r, 30, 60, 100)
+		}
 	}
-	if r.IntN(5) == 0 {
+	if r.IntN(5) == 0 && c.DNSFlaky == 0 {
 		c.FQDNMask = 1 + r.IntN(15) // some peers name themselves by FQDN
 	}
 	if p != "C17" && r.IntN(pickInt(p == "C15", 3, 8)) == 0 {
@@ -322,6 +337,9 @@ func newGen(s *Sim) *Gen {
 		}
 		if s.cfg.MidFwd {
 			g.w["armkbuf"] = 8
+		}
+		if s.cfg.faultOn("dp-far") {
+			g.w["fault"] = 6
 		}
 	case "C15":
 		g.perioOK = true
@@ -1186,6 +1204,9 @@ func (g *Gen) one() (Action, bool) {
 	case "advp":
 		return Action{Op: "adv", Ms: int64(pick(g.rng, 1000, 2000, 3000, 5000, 10000, 500, 30000))}, true
 	case "fault":
+		if g.s.cfg.faultOn("dp-far") {
+			return Action{Op: "fault", Fault: &FaultSpec{Op: "add-update", Kind: "far", Skip: g.intn(2), Errno: pick(g.rng, 12, 16, 22), Tag: "farupd"}}, true
+		}
 		if g.s.cfg.faultOn("dp-perio") {
 			if g.chance(0.5) {
 				return Action{Op: "fault", Fault: &FaultSpec{Op: "multi", Skip: g.intn(3), Errno: pick(g.rng, 12, 16, 2), Tag: "tickq"}}, true
